@@ -284,6 +284,11 @@ class _Caller:
 
 def _call(fn, job):
     try:
+        # every job starts from the import-time state of the library's shared (class-level) definition objects: which worker
+        # process gets which job depends on timing, and results must not
+        if "goodwe" in sys.modules:
+            from . import tables
+            tables.restore_definitions()
         res = fn(job)
     except HarnessError:
         raise
